@@ -63,6 +63,12 @@ var oracles = map[string][]*oracle{}
 
 func registerOracle(o *oracle) { oracles[o.prop] = append(oracles[o.prop], o) }
 
+// A replayer re-executes the input of a recorded oracle failure on the real
+// code and reports (text, whether a failure with the same signature recurs).
+var replayers = map[string]func(f oracleFailure) (string, bool){}
+
+func registerReplayer(prop string, fn func(f oracleFailure) (string, bool)) { replayers[prop] = fn }
+
 // runGuarded runs a case with panic capture and a watchdog.
 func runGuarded(f *family, c *sx, timeout time.Duration) string {
 	done := make(chan string, 1)
@@ -121,6 +127,22 @@ func main() {
 		fmt.Println(runGuarded(f, c, 20*time.Second))
 	case "oracle":
 		cmdOracle(*prop, *seed, *n, *out)
+	case "oracle-replay":
+		var f oracleFailure
+		if err := json.Unmarshal([]byte(*cs), &f); err != nil {
+			fmt.Fprintln(os.Stderr, "bad failure record:", err)
+			os.Exit(2)
+		}
+		rp := replayers[*prop]
+		if rp == nil {
+			fmt.Println("no replayer registered for", *prop, "- the recorded failure is:", *cs)
+			os.Exit(2)
+		}
+		text, again := rp(f)
+		fmt.Println(text)
+		if again {
+			os.Exit(1)
+		}
 	case "coqcases":
 		cmdCoqCases(*in, *k, *out)
 	case "families":
